@@ -13,7 +13,7 @@ PROPS = {
         kani=[dict(files=["contracts/C05/c05.rs"])],
         native=[dict(files=["contracts/C05/c05_native.rs"],
                      harnesses={"c05_native_components_keep_objectives_fresh": dict(anchor="solution-editing components on evaluated individuals",
-                                bound="BOUNDED STAND-IN, native run: 4 boundary-repair and 4 real / 1 bit / 2 permutation mutation components on evaluated populations (coordinates inside, on, a hair outside and clearly outside the domain) x 8 seeds; Uniform / 1-point / Arithmetic / Cycle crossover on 2, 5, 6, 9 evaluated parents x pc in {0, 0.3, 0.5, 0.8, 1} x one or both children x 12 seeds")}),
+                                bound="BOUNDED STAND-IN, native run: 4 boundary-repair and 4 real / 1 bit / 2 permutation mutation components on evaluated populations (coordinates inside, on, a hair outside and clearly outside the domain) x 8 seeds; Uniform / 1-point / Arithmetic / Cycle crossover on 2, 5, 6, 9 evaluated parents x pc in {0, 0.3, 0.5, 0.8, 1} x one or both children x 12 seeds; the black-hole particle update on evaluated particles with and without ties for the best value x 12 seeds")}),
                 dict(files=["contracts/C07/whole_run_native.rs"],
                      harnesses={"c05_native_whole_runs": dict(anchor="whole runs of the shipped templates (final state)",
                                 bound=B + "every evaluated individual on the final population stack and the best-so-far carry f(solution)")})],
@@ -48,7 +48,10 @@ PROPS["C04"] = dict(
                 expect=["Populations<P>::rotate", "Populations<P>::try_peek", "Populations<P>::try_pop", "Populations<P>::pop",
                         "Populations<P>::push", "Populations<P>::current_mut", "template::lemma_n_rotations_restore"])],
     kani=[dict(files=["contracts/C04/c04.rs"])],
-    min_obligations={"quick": 27, "thorough": 27},
+    native=[dict(files=["contracts/C04/c04_native.rs"],
+                 harnesses={"c04_native_utility_components": dict(anchor="ClearPopulation / DuplicatePopulation / InterleavePopulations / SplitPopulationByObjectiveValue",
+                            bound="BOUNDED STAND-IN, native exhaustive enumeration: every stack of height 1..3 with populations of 0..3 tagged individuals (84 stacks) x 4 utility components, the whole stack afterwards compared with a plain-Vec model")})],
+    min_obligations={"quick": 28, "thorough": 28},
     uncovered=["RotatePopulations::execute guard (State-based; see C03/C12 glue)"],
     assumptions=["slice::rotate_right(k) moves the last k elements to the front (assumed in Verus, checked by the Kani triples at heights <= 4)",
                  "Vec range IndexMut == as_mut_slice()[range] (closed-list rewrite)"],
@@ -174,7 +177,7 @@ PROPS["C19"] = dict(
     kani=[dict(files=["contracts/C19/c19.rs"])],
     native=[dict(files=["contracts/C19/c19_native.rs"],
                  harnesses={"c19_native_ant_colony": dict(anchor="AcoGeneration / AsPheromoneUpdate / MinMaxPheromoneUpdate",
-                            bound="BOUNDED STAND-IN, native run: 7 TSP instances (5 and 6 cities at length scales 1, 0.01 / 1e-4 and 1000; 2 and 3 cities) x 4 seeds x {ant system with alpha in {1, 0, 0.25, 2}, max-min with initial trails inside / above / below the bounds} x 25 generation + evaluation + update steps")})],
+                            bound="BOUNDED STAND-IN, native run: 8 TSP instances (5 and 6 cities at length scales 1, 0.01 / 1e-4, 1000 and 1e200; 2 and 3 cities) x 4 seeds x {ant system with alpha in {1, 0, 0.25, 2}, max-min with initial trails inside / above / below the bounds} x 25 generation + evaluation + update steps")})],
     min_obligations={"quick": 2, "thorough": 2},
     uncovered=["'for every pheromone state the algorithm can reach' beyond the states reached in the runs", "the sampling distribution of the tours",
                "evaporation with a symbolic factor (CBMC does not finish: float multipliers); factors {1, 0.5, 0.75, 0}"],
@@ -293,8 +296,10 @@ PROPS["C12"] = dict(
                             "c12_native_mu_plus_lambda": dict(anchor="MuPlusLambda::replace (real std sort)",
                             bound="BOUNDED STAND-IN, native exhaustive enumeration: 0..3 parents x 0..3 offspring over 5 objective values (ties, +inf) x mu 0..total+1"),
                             "c12_native_random_replacement": dict(anchor="RandomReplacement::replace (real rand shuffle)",
-                            bound="BOUNDED STAND-IN, native run: 0..3 parents x 0..3 offspring x mu 0..7 x 16 seeds")})],
-    min_obligations={"quick": 53, "thorough": 53},
+                            bound="BOUNDED STAND-IN, native run: 0..3 parents x 0..3 offspring x mu 0..7 x 16 seeds"),
+                            "c12_native_simple_replacements": dict(anchor="Merge / Generational / DiscardOffspring::replace",
+                            bound="BOUNDED STAND-IN, native enumeration: 0..3 parents x 0..3 offspring (Generational with 4 capacity values): exact result incl. order (parents first for Merge)")})],
+    min_obligations={"quick": 54, "thorough": 54},
     uncovered=["KeepBetterAtIndex is only covered by a BOUNDED native enumeration (ensure! => Kani ICE; iterator chain => Verus rejects)"],
 )
 
